@@ -893,6 +893,10 @@ pub fn gen_expr_design(d: &mut Draw, cfg: &GenCfg, n: usize, single_op: bool) ->
         let depth = if single_op { 1 } else { 1 + d.below(cfg.expr_depth) };
         let hint = if d.chance(1, 2) { Some(ty) } else { None };
         let e = g.checked(d, ty.w, &mut |g, d| {
+            // non-default bias (consumes nothing when off)
+            if g.cfg.wrap_per_mille > 0 && d.chance(g.cfg.wrap_per_mille, 1000) {
+                return g.gen_wrap_expr(d, &sc);
+            }
             let mut e = g.gen_expr(d, &sc, depth, hint, sg);
             if single_op {
                 // retry a few times to get an operator rather than a leaf
